@@ -30,3 +30,9 @@ template void VPool::MergeFrom(VPool&);
 namespace momo { namespace internal {
 template size_t UIntMath<size_t>::Ceil(size_t, size_t) noexcept;
 }}
+namespace momo { namespace internal {
+typedef MemPoolUInt32<32, MemManagerDefault> VPool32;
+template void* VPool32::GetRealPointer<void>(uint32_t) noexcept;
+template size_t VPool32::pvGetBufferSize() const noexcept;
+template void VPool32::pvNewBuffer();
+}}
